@@ -174,6 +174,15 @@ def corpus():
             mkrow(y + 20, "Buy", None, sh=D(2), aps=D(2000, 2), com=None)]
     c.append((ann3, y + 10, True))
     c.append((ann3, y + 10, False))
+    # a re-emitted split of the default affiliate in a summary naming no other affiliate is read back from
+    # the summary CSV as a split of all affiliates (C11): one more (empty) expansion row in the re-run
+    gs = [mkrow(b + 246, "Buy", None, sh=D(3691, 3), aps=D(19502836, 5), com=D(1, 2)),
+          mkrow(b + 280, "Split", "Default", split=("5", "4")),
+          dict(mkrow(b + 282, "Sell", None, sh=D(4), aps=D(75830420, 6), com=D(0)), td=b + 280),
+          mkrow(b + 312, "Buy", "(R)", sh=D(785707, 4), aps=D(176), com=None),
+          mkrow(b + 343, "Sell", None, sh=D(61375, 5), aps=D(11), com=D(0))]
+    c.append((gs, b + 280, False))
+    c.append((gs, b + 280, True))
     return c
 
 
